@@ -93,6 +93,39 @@ def fn_hash(fn):
     return hashlib.sha1(ast.dump(f, include_attributes=False).encode()).hexdigest()[:16]
 
 
+def binding_names(fn):
+    """the names bound by the function, in source order of the binding sites (assignment targets, loop targets, with/except
+    names) - the n-th binding site is what a contract's local name refers to, so a consistent renaming keeps its contracts"""
+    out = []
+
+    def targets(t):
+        if isinstance(t, ast.Name):
+            out.append(t.id)
+        elif isinstance(t, (ast.Tuple, ast.List)):
+            for e in t.elts:
+                targets(e)
+
+    def visit(stmts):
+        for s in stmts:
+            if isinstance(s, ast.Assign):
+                for t in s.targets:
+                    targets(t)
+            elif isinstance(s, (ast.AugAssign, ast.AnnAssign)):
+                targets(s.target)
+            elif isinstance(s, ast.For):
+                targets(s.target)
+            for fld in ('body', 'orelse', 'finalbody'):
+                if hasattr(s, fld) and isinstance(getattr(s, fld), list):
+                    visit(getattr(s, fld))
+            if isinstance(s, ast.Try):
+                for h in s.handlers:
+                    if h.name:
+                        out.append(h.name)
+                    visit(h.body)
+    visit(fn.body)
+    return out
+
+
 def class_context(mod):
     """What a function's verification conditions depend on outside its own body: which classes exist, their bases, decorators,
     and which special (double-underscore) methods and class attributes they define (these decide what ==, in, truth value,
